@@ -118,13 +118,13 @@ def check(ctx, src):
     setexp = [n for n in ast.walk(en) if isinstance(n, ast.Assign) and isinstance(n.targets[0], ast.Attribute) and n.targets[0].attr == "exposing_assignments"
               and isinstance(n.value, ast.Constant) and n.value.value is True]
     v, why = boolfn.decide(setexp, en, boolfn.Atoms(G="isinstance(__, ScopeGlobal)", F="is_function_scope(__)"), lambda e: e["G"] or e["F"], must_depend_on=("G", "F"))
-    ctx.decide("COMP-LEAK", f"{SC}|ScopeGen.__enter__|exposing", v, f"assignments are exposed only when the nearest Python scope is the module or a function, not a class ({why})", SC, en.lineno,
+    ctx.decide_tt("COMP-LEAK", f"{SC}|ScopeGen.__enter__|exposing", v, f"assignments are exposed only when the nearest Python scope is the module or a function, not a class ({why})", SC, en.lineno,
                witness="(defclass C [] (lfor x xs (setx y x))) declares y nonlocal/global inside a class body", detail="module or function")
     asg = comp.sc.func("ScopeGen.assign")
     ctx.require(asg is not None, "ScopeGen.assign not found")
     rec = [n for n in ast.walk(asg) if isinstance(n, ast.Call) and isinstance(n.func, ast.Attribute) and n.func.attr == "append" and dotted(n.func.value) == "self.assignments"]
     v, why = boolfn.decide(rec, asg, boolfn.Atoms(D="__.name in self.defined"), lambda e: not e["D"], must_depend_on=("D",))
-    ctx.decide("COMP-LEAK", f"{SC}|ScopeGen.assign|record", v, f"an assignment inside a comprehension is recorded for leaking exactly when the name is not already defined in the scope ({why})", SC, asg.lineno,
+    ctx.decide_tt("COMP-LEAK", f"{SC}|ScopeGen.assign|record", v, f"an assignment inside a comprehension is recorded for leaking exactly when the name is not already defined in the scope ({why})", SC, asg.lineno,
                witness="(lfor x xs (setx y x)) does not bind y outside", detail="assignments.append unless defined")
     # --- else
     o = pyq.contains(g, lambda n: isinstance(n, ast.Assign) and norm(n) == "orelse = orel and orel.pop().stmts")
